@@ -49,6 +49,9 @@ func checkC38(c *core.Ctx) {
 	ruleNoPanicInDecoders(c)
 	ruleUncheckedAssertionsOnDecodedJSON(c)
 	ruleDateFilterValidated(c)
+	ruleValidatorsRejectStrings(c)
+	// an error kind that maps to a 4xx must survive the wrapping on its way up (C14's rule)
+	ruleErrorChainKept(c)
 }
 
 // decodeCallees: functions whose error means "the client sent something malformed".
